@@ -87,7 +87,7 @@ func GetCache(cacheFile string) MemCache {
 	b, err := ioutil.ReadFile(cacheFile)
 	if err == nil {
 		err = json.Unmarshal(b, &mem)
-		if err == nil && mem.ShardNo == shardNo {
+		if err == nil && mem.ShardNo == shardNo && mem.Cache.valid() {
 			return mem.Cache
 		}
 	}
@@ -98,6 +98,23 @@ func GetCache(cacheFile string) MemCache {
 	}
 
 	return m
+}
+
+// valid reports whether a cache loaded from a file has all its shards
+// and maps: a truncated or hand-edited file must not yield a cache that
+// fails at its first use
+func (m MemCache) valid() bool {
+	if len(m) != shardNo {
+		return false
+	}
+
+	for _, shard := range m {
+		if shard == nil || shard.Templates == nil {
+			return false
+		}
+	}
+
+	return true
 }
 
 func (m MemCache) getShard(id uint16, addr net.IP) (*TemplatesShard, uint32) {
